@@ -17,7 +17,7 @@ THEOREMS = ["Mistune.needs_sound", "Mistune.no_match_without_needed", "Mistune.s
             # speculative calls of precedence_scan) contains only characters of src, so adding one inline rule that needs an absent character changes neither tokens nor errors
             # (any env, any ch-free source; side conditions decidable on regenerated data; configurations without abbr); instance: core vs only-strikethrough on '~'-free text
             "Mistune.Model.Inl.recAt_agree", "Mistune.Model.Inl.inlineParse_irrelevant_rule", "Mistune.Model.Inl.strikethrough_irrelevant", "Mistune.Model.Inl.mark_irrelevant", "Mistune.Model.Inl.insert_irrelevant",
-            "Mistune.Model.Inl.superscript_irrelevant", "Mistune.Model.Inl.subscript_irrelevant"]
+            "Mistune.Model.Inl.superscript_irrelevant", "Mistune.Model.Inl.subscript_irrelevant", "Mistune.Model.Inl.url_link_irrelevant", "Mistune.Model.Inl.inline_spoiler_irrelevant"]
 
 # triggers of behaviour that is not a scanner rule (handler replacements / hooks); rule triggers are computed in Lean
 EXTRA_TRIGGERS = {"task_lists": "[", "spoiler": "!", "abbr": "*", "speedup": "", "fenced": "{", "rst": "."}
